@@ -267,6 +267,28 @@ def _resolve_local(fn, expr, within):
     return expr
 
 
+def _resolve_value(within, expr):
+    """value expression of a local defined once inside `within` (else the expression itself)"""
+    seen = 0
+    while isinstance(expr, ast.Name) and seen < 4:
+        defs = [n for n in ast.walk(within) if isinstance(n, ast.Assign) and len(n.targets) == 1 and isinstance(n.targets[0], ast.Name)
+                and n.targets[0].id == expr.id]
+        if len(defs) != 1:
+            break
+        expr = defs[0].value
+        seen += 1
+    return expr
+
+
+def _is_len_plus_one(e, lst):
+    if isinstance(e, ast.BinOp) and isinstance(e.op, ast.Add):
+        for a, b in ((e.left, e.right), (e.right, e.left)):
+            if isinstance(b, ast.Constant) and b.value == 1 and isinstance(a, ast.Call) and dotted(a.func) == "len" and len(a.args) == 1 \
+                    and isinstance(a.args[0], ast.Name) and a.args[0].id == lst:
+                return True
+    return False
+
+
 def _number_site(C, m, rel, oid, prov, elem_ctor, num_field, first_of_tuple_ok=True):
     """Element k produced by `prov.loop` carries number k: the loop is `enumerate(<source>, start=1)` and the enumerate index
     reaches <elem_ctor>(<num_field>=...) -- directly, or as an argument of a same-module helper all of whose return values are
@@ -274,9 +296,9 @@ def _number_site(C, m, rel, oid, prov, elem_ctor, num_field, first_of_tuple_ok=T
     if prov is None:
         return C.add(oid, None, "order of the elements not established")
     lp, fn = prov.loop, prov.fn
-    if lp is None or prov.index is None:
-        return C.add(oid, None, "elements are not produced by a loop over enumerate(...)")
-    idx = prov.index
+    if lp is None:
+        return C.add(oid, None, "elements are not produced by a loop")
+    idx = prov.index or "<no enumerate index>"
     off = f"enumerate starts at {prov.start} and its index becomes the number unchanged: element numbers must be 1-based positions" if prov.start != 1 else None
     body = lp if isinstance(lp, ast.For) else lp
     if any(isinstance(n, ast.Name) and n.id == idx and isinstance(n.ctx, ast.Store) for b in (lp.body if isinstance(lp, ast.For) else []) for n in ast.walk(b)):
@@ -335,6 +357,12 @@ def _number_site(C, m, rel, oid, prov, elem_ctor, num_field, first_of_tuple_ok=T
         C.fn(m, callee)
         return
     got = passed.get(cand)
+    g_ = _resolve_value(body, got) if got is not None else None
+    if g_ is not None and prov.kind == "map" and prov.lst and _is_len_plus_one(g_, prov.lst):
+        # exactly one element is appended per iteration, so len(<list>) + 1 evaluated before the append is the 1-based position
+        C.add(oid, True, f"{callee}({cand}=len({prov.lst}) + 1) with exactly one append per iteration -> {elem_ctor}({num_field}={cand})", f"{rel}:{lp.lineno}")
+        C.fn(m, callee)
+        return
     # another expression is passed as the number: it may or may not equal the position -- the native replayer decides
     return C.add(oid, None, f"{callee} numbers its result with parameter {cand}, which receives {ast.unparse(got) if got is not None else '<default>'}, "
                             f"not the enumerate index {idx}")
@@ -477,10 +505,19 @@ def _epub(C, repo):
     oid = "C03/epub_extractor.py::read_epub/construction#chapter-number-is-the-1-based-spine-position"
     if fn is None:
         return C.add(oid, None, "read_epub missing")
-    loops = find_loops(fn, lambda n: isinstance(n, ast.For) and ast.unparse(n.iter) == "ctx.spine")
-    if len(loops) != 1:
-        return C.add(oid, None, "loop over ctx.spine not found")
-    lp = loops[0]
+    from contracts import c03_prov as P
+    sinks = P.sink_arg(fn, "EpubContent", "chapters")
+    pr = P.provenance(P.Ctx(m, fn, "read_epub"), sinks[0]) if len(sinks) == 1 else None
+    if pr is None or pr.loop is None or not isinstance(pr.loop, ast.For):
+        return C.add(oid, None, "data flow into EpubContent.chapters not understood")
+    if pr.reordered:
+        return C.add(oid, False, pr.why, f"{rel}:{fn.lineno}")
+    if "spine" not in pr.root:
+        return C.add(oid, None, f"chapters are drawn from {pr.root}, expected the spine")
+    lp = pr.loop
+    if pr.index is not None:
+        # `for number, item_id in enumerate(<spine>, start=1)`: the index is the spine position
+        return _number_site(C, m, rel, oid, pr, "EpubChapter", "chapter_number")
     calls = [n for n in ast.walk(lp) if isinstance(n, ast.Call) and dotted(n.func) == "_extract_chapter"]
     if len(calls) != 1 or len(calls[0].args) < 3 or not isinstance(calls[0].args[2], ast.Name):
         return C.add(oid, None, "_extract_chapter(ctx, item_id, <counter>, ...) not found")
